@@ -255,6 +255,15 @@ class G(object):
         sweep = r2(r.uniform(0.15, 2 * math.pi - 0.05), 3)
         if r.random() < 0.08:
             sweep = r2(2 * math.pi, 6)
+        omit = None
+        if r.random() < 0.15:
+            # centre straight along one axis (the other offset word is exactly 0) and half a turn: the end
+            # point then shares one coordinate with the start, and that axis word is left out
+            if r.random() < 0.5:
+                ci, cj, omit = 0.0, r2(rad * r.choice([-1, 1]), 3), "x"
+            else:
+                ci, cj, omit = r2(rad * r.choice([-1, 1]), 3), 0.0, "y"
+            sweep = math.pi
         cw = r.random() < 0.5
         cx, cy = self.x + ci, self.y + cj
         rr = math.hypot(ci, cj)
@@ -276,6 +285,8 @@ class G(object):
         if k.get("arc_margin") and (-0.5 < best < 1.0 or sweep > 2 * math.pi - 0.3):
             return     # C08: no shallow arcs and no (nearly) closed ones, whose sweep hangs on the last bit
         op = {"op": "arc", "cw": cw, "ci": ci, "cj": cj, "sweep": sweep}
+        if omit:
+            op["omit"] = omit
         if r.random() < 0.15:
             self.z = max(0.1, r2(self.z + r.choice([0.2, -0.2, 1.0]), 2))
             op["z"] = self.z
